@@ -34,7 +34,7 @@ func init() {
 		Assumptions: []string{
 			"the hash-table model is keyed by the equivalence classes of slip's OWN eql (make-hash-table documents that :test is ignored and eql always used) measured on the key objects; a table that honours the requested :test is accepted too",
 			"a predicate that signals or faults on a pair is reported under its own signature and takes no part in the laws for that pair",
-			"coerce: a Lisp-level error is an accepted outcome; a returned object is accepted when slip's typep or the Common Lisp definition (Go check) puts it in the requested type",
+			"coerce: a Lisp-level error is an accepted outcome; a returned object is accepted when slip's typep or the Common Lisp definition (Go check) puts it in the requested type; nil is accepted as a member of every sequence type (slip's tests pin (coerce nil 'vector) => nil)",
 			"type symbols = the classes visible from the user package (find-class); t, list, null, cons, keyword are not classes in slip and take part only through type-of / coerce",
 			"Go map iteration order is not controlled; no verdict depends on it (contents are compared as sorted sets)",
 		},
